@@ -653,6 +653,8 @@ func countDims(c *kit.Ctx, j jWorld) {
 		dim(it.HugeBig, "type-hugepages-exceed-memory")
 		dim(len(it.Overrides) > 0, "type-override-offerings")
 		dim(it.Reserved > 0, "type-reserved-offering")
+		dim(it.Exhausted != "", "type-exhausted-reservation-flagged-"+it.Exhausted)
+		dim(it.Exhausted == "available" && j.Reserved, "type-exhausted-reservation-available-with-gate-on")
 	}
 	pods := append([]jPod{}, j.Pending...)
 	for _, n := range j.Nodes {
